@@ -336,8 +336,11 @@ class Printer:
             return t[1] + "(" + self.j(*_sep([self.delimited(a) for a in t[2]], ";")) + ")"
         if k == "fold":
             _, kind, xs, pat, args = t
-            return self.j(kind, self.atomic(xs), "as", pattern_text(pat, self),
-                          "(" + self.j(*_sep([self.delimited(a) for a in args], ";")) + ")")
+            head = self.j(kind, self.atomic(xs), "as", pattern_text(pat, self))
+            if not args:
+                # the parser accepts a fold without argument list (the compiler rejects it)
+                return head
+            return self.j(head, "(" + self.j(*_sep([self.delimited(a) for a in args], ";")) + ")")
         if k == "try":
             body, c = t[1], t[2]
             in_try = getattr(self, "_in_try", 0)
